@@ -21,7 +21,7 @@ const (
 	exitHang      = 87 // watchdog fired; partial results dumped
 	exitStall     = 88 // no progress but no CPU use either (starved): inconclusive
 	stallSeconds  = 30 // no Tick for this long and little CPU used => starved, inconclusive
-	fastHang      = 3 * time.Second
+	fastHang      = 6 * time.Second
 	pollerPeriod  = 500 * time.Microsecond
 	hangCPUShare  = 0.5
 	soloStallMult = 3
